@@ -260,3 +260,145 @@ def search(pyx):
         import shutil
         shutil.rmtree(tmp, ignore_errors=True)
     return bad
+
+
+# ------------------------------------------------------------------------------------------- the dispatch itself
+
+class _Rec:
+    def __init__(self):
+        self.calls = []      # template argument lists of the instantiations invoked
+        self.resized = 0     # c_v.resize(...) calls
+
+
+class _Obj:
+    """stands for any Cython object the dispatch touches (report, c_u, c_v, labels, rng)"""
+
+    def __init__(self, rec, name=""):
+        object.__setattr__(self, "_rec", rec)
+        object.__setattr__(self, "_name", name)
+
+    def __setattr__(self, k, v):
+        pass
+
+    def __getattr__(self, k):
+        rec, name = self._rec, self._name
+
+        def f(*a, **kw):
+            if name == "c_v" and k == "resize":
+                rec.resized += 1
+            return None
+        return f
+
+
+def python_dispatch(pyx):
+    """Python source of `def run(...)`: the prologue, then the body of `try:` with every
+    `c_multitensor_factorization[T1, ..., T5](...)` replaced by a call that records the template arguments"""
+    pro = python_prologue(pyx)
+    if pro is None:
+        return None
+    m = re.search(r"\ndef run\((.*?)\):\n", pyx, flags=re.S)
+    body = pyx[m.end():]
+    if "\n    try:\n" not in body or "\n    finally:\n" not in body:
+        return None
+    tr = body[body.index("\n    try:\n") + len("\n    try:\n"):body.index("\n    finally:\n")]
+    tr = "\n".join(re.sub(r"(^|\s)#.*$", "", l).rstrip() for l in tr.split("\n"))
+    # instantiations: name[ ... ]( ... )  ->  _invoke("...")
+    out, i = "", 0
+    pat = re.compile(r"c_multitensor_factorization\s*\[")
+    while True:
+        mm = pat.search(tr, i)
+        if not mm:
+            out += tr[i:]
+            break
+        out += tr[i:mm.start()]
+        j, depth = mm.end(), 1
+        while depth:
+            depth += tr[j] == "["
+            depth -= tr[j] == "]"
+            j += 1
+        targs = " ".join(tr[mm.end():j - 1].split())
+        k = tr.index("(", j)
+        depth, e = 1, k + 1
+        while depth:
+            depth += tr[e] == "("
+            depth -= tr[e] == ")"
+            e += 1
+        out += "_invoke(%r)" % targs
+        i = e
+    lines = [l for l in out.split("\n") if l.strip()]
+    # dedent the try body by one level (8 -> 4 spaces)
+    ded = []
+    for l in lines:
+        if not l.startswith("        "):
+            return None
+        ded.append(l[4:])
+    pro_lines = pro.split("\n")[:-1]   # without the prologue's own return
+    src = "\n".join(pro_lines + ["    report = _obj('report'); c_v = _obj('c_v'); c_u = _obj('c_u'); labels = _obj('labels'); rng = _obj('rng')"] + ded +
+                    ["    return None"])
+    return src
+
+
+def _expected(wt, directed, assort, wfile):
+    """the instantiation the arguments name, by their truth value (what `if directed:` / `not directed` mean in Python)"""
+    tens = "DiagonalTensor[numpy.float_t]" if assort else "SymmetricTensor[numpy.float_t]"
+    return ", ".join(["bidirectionalS" if directed else "undirectedS", tens,
+                      ("init_symmetric_tensor_from_initial[%s]" % tens) if wfile else "init_symmetric_tensor_random",
+                      "vertex_t", "numpy.int_t" if wt is int else "numpy.float_t"])
+
+
+def search_dispatch(pyx):
+    """None: could not run the function.  Otherwise the failing calls: for the 16 combinations, with the flags spelled
+    True/False, 1/0 and None (for false) and the file name None, '' or a name, exactly one instantiation must be invoked,
+    the one the arguments name; the in-membership matrix resized exactly for directed runs"""
+    src = python_dispatch(pyx)
+    if src is None:
+        return None
+    import logging
+    rec = _Rec()
+    ns = {"numpy": NumpyStub, "np": NumpyStub, "logging": logging, "_opaque": lambda *a, **k: object(), "time": lambda x: 0,
+          "NULL": None, "ReportWrapper": lambda *a, **k: _Obj(rec, "report"), "deref": lambda x: x,
+          "_obj": lambda n: _Obj(rec, n), "_invoke": lambda t: rec.calls.append(" ".join(t.replace(",", ", ").split()))}
+    try:
+        exec(compile(src, "<pyx run>", "exec"), ns)
+    except Exception:
+        return None
+    run = ns["run"]
+    bad = []
+    logging.disable(logging.CRITICAL)
+    tmp = tempfile.mkdtemp(prefix="pyxsim")
+    try:
+        affp = os.path.join(tmp, "w.dat")
+        open(affp, "w").write(AFF)
+        adjp = os.path.join(tmp, "adj.dat")
+        open(adjp, "w").write(ADJ["integral weights"])
+        spell = {True: [True, 1], False: [False, 0, None]}
+        for wt in (int, float):
+            for directed in (True, False):
+                for assort in (True, False):
+                    for wfile in (True, False):
+                        for dv in spell[directed]:
+                            for av in spell[assort]:
+                                for fv in ([affp] if wfile else [None, ""]):
+                                    rec.calls, rec.resized = [], 0
+                                    try:
+                                        run(adjp, 2, directed=dv, assortative=av, init_affinity_filename=fv, weigths_dtype=wt, seed=1)
+                                    except Exception:
+                                        return None
+                                    want = _expected(wt, directed, assort, wfile)
+                                    norm = lambda t: re.sub(r"\s+", "", t)
+                                    what = None
+                                    if len(rec.calls) != 1:
+                                        what = "%d library instantiations invoked" % len(rec.calls)
+                                    elif norm(rec.calls[0]) != norm(want):
+                                        what = "invokes <%s>, the arguments name <%s>" % (rec.calls[0], want)
+                                    elif (rec.resized > 0) != directed:
+                                        what = "in-membership matrix %s for a %s run" % ("allocated" if rec.resized else "not allocated", "directed" if directed else "undirected")
+                                    if what:
+                                        bad.append({"call": {"weigths_dtype": wt.__name__, "directed": repr(dv), "assortative": repr(av),
+                                                             "init_affinity_filename": repr(fv if fv != affp else "w.dat"), "nof_groups": 2,
+                                                             "adjacency_file": ADJ["integral weights"]}, "what": what})
+    finally:
+        logging.disable(logging.NOTSET)
+        import shutil
+        shutil.rmtree(tmp, ignore_errors=True)
+    return bad
